@@ -109,6 +109,7 @@ void name_range(const void* p, size_t n, const char* name);
 void event(const std::string& line);                // K_EV record, any thread
 void yield_point();                                 // explicit scheduling point (operation START)
 bool at_boundary(int tid);                          // thread is at an operation START (or has not started)
+void step_point();                                  // scheduling point for a harness-level step (e.g. one plain access of a functor)
 int self();                                         // logical tid (0 = main)
 uint64_t choose(uint64_t n);                        // recorded nondeterministic choice in [0,n)
 void fail(int status, const std::string& detail);   // harness oracle reports a violation
